@@ -26,11 +26,12 @@ ID = "C14"
 READY = True
 LEAN_TARGETS = ["NauyacaVerif.Props.C14"]
 THEOREMS = [f"NauyacaVerif.C14.{t}" for t in
-            ("upload_effects", "upload_target_canonical", "upload_confined", "upload_content", "upload_guarded", "success_guarded",
+            ("upload_effects", "upload_target_canonical", "tree_target_resolved", "upload_confined", "upload_content", "upload_guarded", "success_guarded",
              "nonsuccess_no_change", "nonsuccess_no_dirs", "success_upload", "success_delete")]
 EXTRACT: list[str] = []
 ASSUMPTIONS = [
-    "OS path-resolution contract: an operation on a fully resolved path whose ancestors are real directories touches that path only; Path.resolve() follows what the kernel follows (the symlink-tree port of posixpath._joinrealpath is tied to the real filesystem by this run only)",
+    "that the target is fully resolved is no longer assumed of Path.resolve(): the handler checks realpath(target) == target and the theorems carry that fixpoint (upload_target_canonical); for the symlink-tree instance it is PROVED that such a fixpoint (reached without a loop) has no symlink among its prefixes and that the kernel-style walk ends at the target itself (tree_target_resolved)",
+    "still assumed: the real kernel and os.path.realpath agree with the tree model (the port of posixpath._joinrealpath 3.12.1 and the kernel-style walk are tied to the real filesystem by this differential run only), i.e. an operation on a path without symlink components touches that path only",
     "no concurrent modification of the upload tree between resolve() and the write (single request at a time)",
     "the file map of the theorems is consistent with the OS (a path holding a file has an lstat entry): then the exclusively created temporary file never coincides with an existing entry; the harness pins secrets.token_hex and os.getpid-style names so that collisions ARE generated",
     "the Titan line is parsed by the URL model with an ASCII host; Python's int()/str.strip() are modelled on their ASCII + Unicode-whitespace fragment",
@@ -152,6 +153,11 @@ class UploadFamily(Family):
 
                 p = TitanRequest.from_line(case["line"]).path
                 full = os.path.realpath(os.path.join(base, UP, p.lstrip("/")))
+                for _ in range(8):          # realpath (non-strict) can stop short of a fixpoint: iterate
+                    nxt = os.path.realpath(full)
+                    if nxt == full:
+                        break
+                    full = nxt
                 root = os.path.join(base, UP)
                 if full == root or full.startswith(root + "/"):
                     rel = os.path.relpath(full, base)
@@ -346,6 +352,27 @@ def gen_tree(rng: random.Random):
             else:
                 tgt = "."
             ents.append(["l", p, tgt])
+    if rng.random() < 0.2:
+        # pseudo-loop: a link whose target lexically passes through the link itself; Path.resolve() (non-strict) then
+        # hands back a path in which the following component is left unresolved - combined with a second link
+        d = rng.choice(dirs)
+        depth = d.count("/") + 1
+        n, x = rng.choice([("p", "dd"), ("a", "d1"), ("q", "ev")])
+        if not any(e[1] in (d + "/" + n, d + "/" + x) for e in ents):
+            k = rng.random()
+            if k < 0.3:
+                second, tail = "../" * depth + "out", "/secret"                       # directory link to outside
+            elif k < 0.5:
+                second, tail = "../" * depth + "out/secret", ""                       # file link to outside
+            elif k < 0.65:
+                second, tail = "/uploads-evil", "/e"
+            elif k < 0.8:
+                second, tail = "/" + rng.choice(dirs), "/" + rng.choice(SAFE_NAMES)   # directory link to inside
+            else:
+                inside_files = [e[1] for e in ents if e[0] == "f" and e[1].startswith(UP + "/")]
+                second, tail = ("/" + rng.choice(inside_files) if inside_files else "nonexistent"), ""   # file link to inside
+            ents.append(["l", d + "/" + n, rng.choice(["./", ""]) + n + "/../" + x + tail])
+            ents.append(["l", d + "/" + x, second])
     if rng.random() < 0.12:                                   # something already carries the temporary name
         d = rng.choice(dirs)
         k = rng.random()
@@ -473,6 +500,13 @@ FIXED_TREE = [["d", UP], ["d", "uploads-evil"], ["d", "out"], ["f", "out/secret"
               ["f", "uploads/a", hexs(b"OLD-a")], ["d", "uploads/sub"], ["l", "uploads/lout", "/out"], ["l", "uploads/lin", "sub"],
               ["l", "uploads/lsec", "../out/secret"], ["l", "uploads/dang", "/out/created-through-link"]]
 OPEN = {"max": 100, "types": None, "tokens": None, "delete": True}
+# links whose target passes through the link itself (p, q, r, s), each combined with a second link
+PSEUDO_TREE = FIXED_TREE + [["d", "uploads/g"],
+                            ["l", "uploads/g/p", "./p/../d/secret"], ["l", "uploads/g/d", "../../out"],          # directory link to outside
+                            ["l", "uploads/g/q", "./q/../evil"], ["l", "uploads/g/evil", "../../out/secret"],    # file link to outside
+                            ["l", "uploads/g/r", "r/../din/x"], ["l", "uploads/g/din", "../sub"],                # directory link to inside
+                            ["l", "uploads/g/s", "./s/../fin"], ["l", "uploads/g/fin", "../a"],                  # file link to inside
+                            ["l", "uploads/g/t", "./t/../gone/x"]]                                                # nothing behind it
 
 
 def fixed_cases(mode: str):
@@ -491,6 +525,9 @@ def fixed_cases(mode: str):
         yield {"tree": FIXED_TREE, "cfg": OPEN, "line": line, "content": content, "fault": fault, "cls": cls + "+fixed"}
     yield {"tree": FIXED_TREE, "cfg": {"max": 100, "types": None, "tokens": [TOKEN], "delete": False}, "line": "titan://h/a;size=7;token=", "content": c, "fault": None, "cls": "existing+emptytok+fixed"}
     yield {"tree": FIXED_TREE, "cfg": {"max": 100, "types": None, "tokens": [TOKEN], "delete": False}, "line": "titan://h/a;size=0;token=" + TOKEN, "content": "", "fault": None, "cls": "existing+tok+fixed"}
+    for name in ("p", "q", "r", "s", "t", "p/x", "d/secret", "din/x", "fin"):
+        yield {"tree": PSEUDO_TREE, "cfg": OPEN, "line": f"titan://h/g/{name};size=7", "content": c, "fault": None, "cls": "pseudoloop+fixed"}
+        yield {"tree": PSEUDO_TREE, "cfg": OPEN, "line": f"titan://h/g/{name};size=0", "content": "", "fault": None, "cls": "pseudoloop+fixed"}
     # entries that carry a name the handler might pick for its temporary file (the predictable .NAME.PID.upload of
     # older revisions, and the name token_hex is made to return here): they must never be opened, replaced or removed
     col = [[["f", "uploads/.a.$PID.upload", hexs(b"PRECIOUS")]], [["f", "uploads/" + TMPNAME, hexs(b"PRECIOUS")]], [["d", "uploads/" + TMPNAME]],
@@ -510,7 +547,7 @@ class Direct(UploadFamily):
 
     def gen(self, rng, n):
         count = 0
-        for c in fixed_cases("direct"):
+        for c in self.share(list(fixed_cases("direct"))):
             yield c
             count += 1
         while count < n:
@@ -530,7 +567,7 @@ class Proto(UploadFamily):
 
     def gen(self, rng, n):
         count = 0
-        for c in fixed_cases("proto"):
+        for c in self.share(list(fixed_cases("proto"))):
             c = dict(c)
             c["content"] = c["content"] + hexs(b"TRAILING")           # bytes after the declared content
             c["cuts"] = [5, 20]
